@@ -201,6 +201,19 @@ CHECKS['C03'] = dict(
     ],
 )
 
+CHECKS['C16'] = dict(
+    level='exploration',
+    rule='the C03 history generator restricted to JIT VMs created with RANDOMX_FLAG_SECURE (soft/hard AES, light and - in the dataset histories - fast), caches with and without JIT (compiled dataset '
+         'initialiser), re-keying, rebinding, v1<->v2 switches, batches, releases; every mmap/mprotect/munmap the library issues is interposed and logged. Oracle: no mapping or protection change ever '
+         'requests PROT_WRITE|PROT_EXEC, no library-owned region is W+X after any command, /proc/self/maps shows no rwx mapping overlapping a library-owned range; digests still equal the fresh-object oracle. '
+         'Non-trivial: history in which a secure VM hashes (code generated and executed) after at least one of re-key/rebind/version switch/batch',
+    assumptions=COMMON_ASSUME + ['the interposed mmap/mprotect log sees every request of the statically linked library; the executable stack caused by the missing .note.GNU-stack in jit_compiler_x86_static.S is not a library-owned code buffer and is ignored'],
+    stages=[
+        dict(name='secure', harness=H('c16', ['harness/c03_history.cpp'], cflags=['-DWITH_PROT_ORACLE'], ldflags=GARBAGE_LD + ['-Wl,--wrap=mmap', '-Wl,--wrap=munmap', '-Wl,--wrap=mprotect']),
+             plan={'quick': 'secure=48:60,secure_ds=2:30', 'thorough': 'secure=1600:100,secure_ds=32:40'}, env={'VERIF_CASE_TIMEOUT': '600'}),
+    ],
+)
+
 C02_AUX = os.path.join(os.path.dirname(os.path.abspath(__file__)), 'build', 'run', 'c02-digests')
 
 
